@@ -59,6 +59,9 @@ def battery(case, rec):
     w = wn.Wordnet(scope, expand=case.get('expand', ''))
     wd = wn.Wordnet()
     rec('lexicons', lambda: wn.lexicons())
+    rec('w.lexicons', lambda: [w.lexicons(), w.expanded_lexicons()])
+    rec('w.fresh', lambda: (lambda x: [x.lexicons(), x.expanded_lexicons(), x.describe()])(
+        wn.Wordnet(scope, expand=case.get('expand', ''))))
     for name, wx in (('w', w), ('default', wd)):
         rec(f'{name}.words', lambda wx=wx: wx.words())
         rec(f'{name}.senses', lambda wx=wx: wx.senses())
